@@ -13,6 +13,15 @@ import numpy as np
 from harness import common as C
 from harness import pcovr_common as P
 
+MAX_REPORTS = 25          # replay files written per run (a broken tree fails hundreds of cases)
+
+
+def report(ctx, *a, **kw):
+    if len(ctx.violations) < MAX_REPORTS:
+        C.report_violation(ctx, *a, **kw)
+    else:
+        ctx.suppressed = getattr(ctx, "suppressed", 0) + 1
+
 KEY_PRE1D = "pcovr_precomputed_1d_y_sample_space"
 
 
@@ -42,7 +51,10 @@ def run_fit(ds, cfg):
         est, Ym, Yh, W = P.fit_impl(ds, cfg)
     except Exception as e:                      # noqa
         return dict(error=type(e).__name__, error_msg=str(e)[:200])
-    obs, T = P.observe(est, ds, Ym)
+    try:
+        obs, T = P.observe(est, ds, Ym)
+    except Exception as e:                      # noqa  (a public method of the fitted estimator raised)
+        return dict(error=type(e).__name__, error_msg="after a successful fit, transform/predict/score raised: " + str(e)[:160])
     return dict(est=est, Ym=Ym, Yh=Yh, W=W, obs=obs, T=T)
 
 
@@ -212,24 +224,24 @@ def run(ctx):
             if pre1d_reported > 1:          # one replay of the known defect is enough
                 continue
         if msg:
-            C.report_violation(ctx, "C14 fails on the implementation: " + msg, dict(case=case_replay(ds, cfg)),
+            report(ctx, "C14 fails on the implementation: " + msg, dict(case=case_replay(ds, cfg)),
                                key=KEY_PRE1D if pre1d else None, found_input=True)
         elif c in mism:
             r = reports[c]
             bad_o = [P.OUTPUT_NAMES[i] for i, b in enumerate(r["ok_out"]) if not b]
             bad_h = [P.RESIDUAL_NAMES[i] for i, b in enumerate(r["ok_hyp"]) if not b]
-            C.report_violation(
+            report(
                 ctx, "correspondence PCovR model vs implementation broken: outputs %s, oracle hypotheses %s" % (bad_o, bad_h),
                 dict(case=case_replay(ds, cfg), deviations=r["dev"], residuals=r["res"],
                      correspondence="pc_report (Model/PCovR.v)"),
                 key=KEY_PRE1D if pre1d else None, found_input=False)
     for ds, cfg, msg in nested_viol:
-        C.report_violation(ctx, "C14 fails on the implementation: " + msg, dict(case=case_replay(ds, cfg), nested=True),
+        report(ctx, "C14 fails on the implementation: " + msg, dict(case=case_replay(ds, cfg), nested=True),
                            found_input=True)
     for txt in broken:
-        C.report_violation(ctx, "correspondence shard did not evaluate", dict(coq_output=txt), found_input=False)
+        report(ctx, "correspondence shard did not evaluate", dict(coq_output=txt), found_input=False)
     if not po["ok"]:
-        C.report_violation(ctx, "proof obligations of Properties/C14.v not discharged",
+        report(ctx, "proof obligations of Properties/C14.v not discharged",
                            dict(theorem_file="coq/Properties/C14.v", log=po["log"][-2000:], scan=po["scan"],
                                 disallowed_axioms=po.get("disallowed_axioms")), found_input=False)
     # distinct non-trivial: 0 < a <= 1 (C14's range), 1 <= k < numeric rank, compared in Coq
